@@ -321,6 +321,39 @@ func init() {
 					om.Set(k, []any{"a", nil})
 				}
 			}
+			// "built programmatically" also means edited: deletions (with and without compaction), replacements
+			// (fresh name, same name, colliding with a later or earlier key) and re-insertions
+			edits := ""
+			for e := rng.Intn(6); e > 0 && om.Len() > 1; e-- {
+				var live []string
+				om.Range(func(k string, _ any) error { live = append(live, k); return nil })
+				k := live[rng.Intn(len(live))]
+				switch rng.Intn(4) {
+				case 0:
+					om.Delete(k)
+					edits += "D"
+				case 1:
+					om.Replace(k, k+"'", "r")
+					edits += "R"
+				case 2:
+					om.Replace(k, live[rng.Intn(len(live))], "c")
+					edits += "C"
+				default:
+					om.Delete(k)
+					om.Set(k, "again")
+					edits += "S"
+				}
+			}
+			if edits != "" {
+				stat("C08", "omap-edited")
+			}
+			var liveKeys []string
+			om.Range(func(k string, _ any) error { liveKeys = append(liveKeys, k); return nil })
+			if jb2, err := json.Marshal(om); err == nil {
+				if got, err := jsonKeyOrderAt(jb2, nil); err != nil || fmt.Sprint(got) != fmt.Sprint(liveKeys) {
+					oracleFail("C08", "omap-json-keys", sx.L(sx.A(edits), sx.A(string(jb2))), fmt.Sprintf("JSON members %q but the map holds %q", got, liveKeys))
+				}
+			}
 			if jb2, err := json.Marshal(om); err == nil {
 				back := ordered.NewMap[string, any](0)
 				if err := json.Unmarshal(jb2, back); err != nil || !ordered.EqualSA(om, back) {
